@@ -105,6 +105,11 @@ def isinstance_(I: Interp, v, c, node=None):
         if all(isinstance(r, bool) for r in rs):
             return any(rs)
         return SV(z3.Or([I.zbool(r) for r in rs]), BOOL)
+    if callable(c) and not isinstance(c, (ClassRef, FuncRef)):
+        for bn, bf in BUILTINS.items():
+            if bf is c:
+                c = ClassRef(bn, bn)
+                break
     name = c.name if isinstance(c, ClassRef) else getattr(c, "qual", str(c)).rsplit(".", 1)[-1]
     qual = c.qual if isinstance(c, ClassRef) else getattr(c, "qual", str(c))
     if isinstance(v, Obj):
@@ -212,7 +217,7 @@ def call_value(I: Interp, f, args, kwargs, node=None):
         qual = f.qual
         pol = V.callee_policy(I, qual)
         if pol == "contract":
-            return V.apply_contract(I, V.contract_for(qual), args, kwargs, node, fnode=f.node)
+            return V.apply_contract(I, V.contract_for(qual) or V.c, args, kwargs, node, fnode=f.node)
         if pol == "inline":
             bound = bind_args(f.node, args, kwargs, I, Env(), Frame(qual, f.node, f.module, f.cls))
             return run_function(I, qual, f.node, f.module, f.cls, bound)
